@@ -494,6 +494,25 @@ def jvp_wiring(ctx, rule):
 
 # ------------------------------------------------------------------------------------------------ O3: relative differences
 
+def _find_named(ctx, mname, fname):
+    """scope of the function the module `mname` knows under the name `fname`: defined there, or defined in another repository module
+    (a private helper module) and imported under that name"""
+    sc = ctx.repo.find(f"{mname}:{fname}")
+    if sc is not None and sc.is_function():
+        return sc
+    m = ctx.repo.module(mname)
+    if m is None:
+        return None
+    try:
+        vals = [v for v in ctx.repo.resolve(ast.Name(id=fname, ctx=ast.Load()), m.scope) if isinstance(v, FuncVal)]
+    except Exception:
+        return None
+    quals = {v.scope.qualname for v in vals}
+    if len(quals) == 1 and vals[0].scope.is_function():
+        return vals[0].scope
+    return None
+
+
 def relative_differences(ctx):
     rule = "O3/T7-relative-differences"
     # the relative difference of the square root: found by role (the two-argument callable that the rule of the spectral function whose
@@ -511,7 +530,8 @@ def relative_differences(ctx):
     if jf is not None:
         fn, sq = jf.rd, (callable_scope(jf.rd) or jf.where)
     else:
-        sq = ctx.need(f"{TM}:_sqrt_relative_difference")
+        sq = _find_named(ctx, TM, "_sqrt_relative_difference") or ctx.need(f"{TM}:_sqrt_relative_difference")
+        ctx.touch(sq)
     try:
         got = I.num(I.call(fn, [a, b], {}) if fn is not None else I.run(sq, [a, b]))
         sa, sb = _A.sqrt(a.a), _A.sqrt(b.a)
@@ -534,7 +554,7 @@ def relative_differences(ctx):
                ("_relative_log_difference_taylor", lambda x: math.log(x), [(1.0, 1.01), (2.0, 2.02)], {"tol": 1e-8})]
     n_ok = 0
     for fname, f, pts, opt in screens:
-        sc = ctx.repo.find(f"{TM}:{fname}")
+        sc = _find_named(ctx, TM, fname)
         if sc is None or len(sc.params()) != 2:
             continue
         ctx.touch(sc)
@@ -566,7 +586,7 @@ def log_taylor(ctx):
     2/(2k+1) of f^(2k) and no odd powers.  A polynomial in f with another coefficient (or of degree < 8) is refuted; a value that is not a
     polynomial in f (another approximation) is screened at nearly equal arguments and otherwise left undecided."""
     rule = "O3/T7-relative-differences"
-    sc = ctx.repo.find(f"{TM}:_relative_log_difference_taylor")
+    sc = _find_named(ctx, TM, "_relative_log_difference_taylor")
     if sc is None:
         return
     ctx.touch(sc)
@@ -847,6 +867,18 @@ _POW_RD = ("    lams = np.array([lam1, lam2])\n    i = np.argsort(np.abs(lams))\
            "    return lam_big**(m-1)*(arg**m - 1)/(arg - 1)")
 
 
+_R3_DFUNC = [("def _symmetric_matrix_function_jvp_helper(func, relative_difference, primals, tangents):",
+              "def _symmetric_matrix_function_jvp_helper(func, relative_difference, primals, tangents, dfunc=None):"),
+             ("    df = jax.jacfwd(func)\n", "    df = jax.jacfwd(func) if dfunc is None else dfunc\n"),
+             ("_symmetric_matrix_function_jvp_helper(np.exp, _exp_relative_difference, primals, tangents)",
+              "_symmetric_matrix_function_jvp_helper(np.exp, _exp_relative_difference, primals, tangents,\n"
+              "                                                             dfunc=jax.jacfwd(np.exp))")]
+_R3_VALIDATE = [("@jax.custom_jvp\ndef sqrtm(A):",
+                 "def _require_square_matrix(A, caller):\n    shape = np.shape(A)\n    if len(shape) != 2 or shape[0] != shape[1]:\n"
+                 "        raise ValueError(f\"{caller} expects a square matrix, got an array of shape {shape}\")\n\n\n@jax.custom_jvp\ndef sqrtm(A):"),
+                ("    dim        = A.shape[0]\n", "    _require_square_matrix(A, \"sqrtm_dbp\")\n    dim        = A.shape[0]\n")]
+
+
 def variants(repo):
     from optilint.selftest import Variant, sub, sub_in_func, alpha_rename, reformat
     from .C12_variants import (multi, REF_A_TM, REF_B_TM, REF_B_LA, REF_C_TM, REF_C_LA, REF_D_TM, REF_E_TM, REF_F_LA, REF_G_TM, REF_H_TM, REF_J_TM,
@@ -856,6 +888,15 @@ def variants(repo):
     return _round2_variants(Variant, sub, multi, T, LA, REF_E_TM, REF_F_LA, REF_G_TM, REF_H_TM, REF_J_TM,
                             R2_1_TM, R2_1_LA, R2_2_TM, R2_2_LA, R2_3_TM, R2_3_LA) + [
         Variant("round 2 / C08-r6: helper(func, rd, C, Cdot) split in three, partial, solver tail moved", T, multi(R2_C08R6_TM), None),
+        # ---- round 3 idioms: an optional keyword carrying the derivative of the scalar function; trace-time shape validation with np.shape / raise
+        Variant("round 3: optional dfunc keyword, the exp rule hands over jacfwd(exp)", T, multi(_R3_DFUNC), None),
+        Variant("round 3: dfunc keyword, the exp rule hands over exp itself (its own derivative)", T, multi(_R3_DFUNC + [("dfunc=jax.jacfwd(np.exp))", "dfunc=np.exp)")]), None),
+        Variant("dfunc + the exp rule hands over the derivative of the logarithm", T, multi(_R3_DFUNC + [("dfunc=jax.jacfwd(np.exp))", "dfunc=jax.jacfwd(np.log))")]), "O3/T5-custom-jvp-wiring"),
+        Variant("dfunc + the helper doubles a derivative that is handed over", T, multi(_R3_DFUNC + [("if dfunc is None else dfunc\n", "if dfunc is None else (lambda x: 2*dfunc(x))\n")]),
+                "O3/T5-custom-jvp-wiring"),
+        Variant("round 3: square-matrix validation (np.shape, raise) in front of the Denman-Beavers loop", LA, multi(_R3_VALIDATE), None),
+        Variant("validation + switch flipped", LA, multi(_R3_VALIDATE + [("        g = np.where(diff >= scaleTol,", "        g = np.where(diff <= scaleTol,")]), "O4/T2-scaling-switch"),
+        Variant("validation + update coefficient", LA, multi(_R3_VALIDATE + [("        M = 0.5 * (I + 0.5 * (M + N))", "        M = 0.5 * (I + 0.25 * (M + N))")]), "O4/T7-denman-beavers-invariant"),
         Variant("C08-r6 + module level fallback without the derivative", T, multi(R2_C08R6_TM + [("    return np.where(x2 == x1, df(x1), relative_difference(x1, x2_safe))", "    return relative_difference(x1, x2_safe)")]),
                 "O3/T5-custom-jvp-wiring"),
         Variant("refactoring N (eigen solvers return a NamedTuple read by field name)", T, multi(REF_N_TM), None),
